@@ -11,7 +11,8 @@
    skipped); [body_loop_orig] is the loop before it. *)
 From AV Require Import Lib.Base Gen.Consts H2.Prepare H2.SendLoop H2.Spec
   H2.PrepareProofs H2.SendLoopProofs H2.ResponseProofs H2.ErrorProofs
-  H2.RecvPayload H2.RecvPayloadProofs H2.Dispatch H2.DispatchProofs.
+  H2.RecvPayload H2.RecvPayloadProofs H2.Dispatch H2.DispatchProofs
+  Gen.H2Tables H2.TablesTie.
 
 Definition C := H2_CHUNK_SIZE.
 
@@ -308,6 +309,44 @@ Theorem C08_payload_error_mapping : forall evs rels its ops e,
 Proof.
   intros. split; [eapply stream_errors_forwarded|eapply error_sources]; eassumption.
 Qed.
+
+(* ------------------------------------------------------------------ translator tie (Gen/H2Tables.v)
+   tools/gen/h2.py re-reads h2/dispatcher.rs on every check run and writes the literals below; a
+   definition is omitted when its anchored pattern is gone, so these theorems then fail to build. *)
+
+(* For every status code 100..=999: the model's body-less statuses are exactly the arm
+   `NO_CONTENT | CONTINUE | PROCESSING => *size = BodySize::None` as written, its Stream rule is the
+   `SWITCHING_PROTOCOLS => { skip_len = true; *size = BodySize::Stream }` arm, and the whole
+   `match head.status` block of the model equals the block described by the generated tables. *)
+Theorem C08_status_rule_matches_generated : forall status,
+  100 <= status <= 999 ->
+  code_bodiless status = memN status H2_NONE_STATUSES /\
+  code_no_length status = (memN status H2_NONE_STATUSES || memN status H2_STREAM_STATUSES) /\
+  forall skip_len size, status_size status skip_len size = status_size_gen status skip_len size.
+Proof. exact status_rule_matches_generated. Qed.
+
+(* For EVERY header name: the copy loop of the model skips it iff it is in the generated name
+   lists (`&CONNECTION | &TRANSFER_ENCODING | &UPGRADE` and the `from_static("keep-alive")` /
+   `("proxy-connection")` tests, as written) or it is content-length and skip_len holds; and the
+   names C08_no_connection_headers speaks about are that same set. *)
+Theorem C08_skipped_headers_match_generated : forall skip_len k,
+  dropped skip_len k = memB k (H2_SKIPPED_CONSTS ++ H2_SKIPPED_STATIC)
+                       || (bytes_eqb k h_content_length && skip_len)
+  /\ memB k connection_specific = memB k (H2_SKIPPED_CONSTS ++ H2_SKIPPED_STATIC).
+Proof. intros. split; [apply skipped_headers_match_generated|apply spec_names_match_generated]. Qed.
+
+(* Literal presence checks: `let mut skip_len = size != &BodySize::Stream;`,
+   `&CONTENT_LENGTH if skip_len => continue`, `&DATE => has_date = true`, `skip_len = true` in the 101
+   arm, `let eof_or_head = size.is_eof() || head_req;` (+ its two uses), BodySize::is_eof =
+   None | Sized(0), `cmp::min(chunk.len(), CHUNK_SIZE)` + reserve_capacity, the split_to rule, the
+   empty-chunk skip (F10 repair), the closing `send_data(Bytes::new(), true)`; and no further arm in
+   either match. *)
+Theorem C08_literal_rules_present :
+  H2_SKIP_LEN_UNLESS_STREAM && H2_CL_SKIPPED_IF_SKIP_LEN && H2_DATE_NOTED_AND_KEPT
+  && H2_STREAM_SETS_SKIP_LEN && H2_EOS_RULE && H2_IS_EOF_NONE_OR_SIZED0
+  && H2_CHUNK_CAP_RULE && H2_SPLIT_RULE && H2_SKIP_EMPTY_CHUNK && H2_FINAL_FRAME_RULE
+  && (H2_STATUS_ARMS =? 2) && (H2_COPY_ARMS =? 5) = true.
+Proof. exact literal_rules_present. Qed.
 
 (* non-vacuity: a two-chunk body (with an empty chunk in between, the F10 witness) through a
    window that forces splitting, grants 0 / exact / larger than requested included *)
